@@ -9,10 +9,12 @@ import (
 
 	"storj.io/drpc"
 	"storj.io/drpc/drpcmetadata"
+	"storj.io/drpc/drpcserver"
 
 	"verif/engine/sched"
 	"verif/engine/vs"
 	"verif/harness/enc"
+	"verif/harness/refwire"
 	"verif/harness/tr"
 	"verif/harness/wl"
 	"verif/mc"
@@ -329,6 +331,80 @@ func stepStrings(alpha string, maxLen int, atMostOne byte) []string {
 	return out
 }
 
+// pipelinedScenario: a peer that does not wait (a raw client, or a client that closes a stream and
+// starts the next call at once) has the packets of two unary RPCs on the wire back to back; the
+// first one ends with endFirst. Whatever happens to the first, the second is a well-formed RPC on
+// an open connection and must be answered.
+func pipelinedScenario(endFirst string, ctlAfter bool) *mc.Scenario {
+	name := fmt.Sprintf("pipelined[rpc 1 (invoke, message, %s) and rpc 2 (invoke, message, half-close) arrive back to back; control packet after=%v]", endFirst, ctlAfter)
+	body := func() {
+		f := map[string]any{}
+		sched.Cur().State()["facts"] = f
+		var wire []byte
+		add := func(kind uint8, sid, mid uint64, data []byte, ctl bool) {
+			wire = refwire.Append(wire, refwire.Frame{Data: data, ID: refwire.ID{Stream: sid, Message: mid}, Kind: kind, Done: true, Control: ctl})
+		}
+		add(1, 1, 1, []byte("/probe/a"), false)
+		add(2, 1, 2, []byte("probe-a"), false)
+		switch endFirst {
+		case "half-close":
+			add(6, 1, 3, nil, false)
+		case "close":
+			add(5, 1, 3, nil, false)
+		case "nothing":
+		}
+		add(1, 2, 1, []byte("/probe/b"), false)
+		add(2, 2, 2, []byte("probe-b"), false)
+		add(6, 2, 3, nil, false)
+		if ctlAfter {
+			add(8, 2, 4, []byte("future-extension"), true)
+		}
+		c, s := tr.New("cli", "srv", tr.Options{Cap: -1})
+		srv := drpcserver.New(handlerFunc(func(stream drpc.Stream, rpc string) error { return wl.Echo(stream, rpc) }))
+		ctx, cancel := context.WithCancel(context.Background())
+		s.InjectInit(wire)
+		vs.Go("serveone", func() { _ = srv.ServeOne(ctx, s) })
+		sched.Quiesce()
+		frames, rest, res := refwire.ParseAll(c.Pending())
+		answered := map[uint64]string{}
+		for _, fr := range frames {
+			if fr.Kind == 2 {
+				answered[fr.ID.Stream] += string(fr.Data)
+			}
+		}
+		f["answers"] = fmt.Sprintf("%q", answered)
+		switch {
+		case res != refwire.OK || len(rest) != 0:
+			f["fail"] = "the server's output is not a sequence of whole frames"
+		case s.IsClosed() || s.Dead():
+			f["fail"] = fmt.Sprintf("the server closed the connection (answers so far %q)", answered)
+		case answered[2] != "/probe/b:probe-b":
+			f["fail"] = fmt.Sprintf("rpc 2 was not answered on a connection that is still open: answers %q; blocked=%s", answered, wl.BlockedSummary(sched.BlockedNow()))
+		}
+		// (the first call may legitimately go unanswered: a new invoke ends the stream before it)
+		sched.Freeze()
+		wl.Cancel(cancel)
+		c.EnvClose()
+		sched.Quiesce()
+	}
+	check := func(e *sched.Exec) string {
+		if len(e.Panics) > 0 {
+			return "panic: " + e.Panics[0]
+		}
+		f, _ := e.State()["facts"].(map[string]any)
+		if m, ok := f["fail"]; ok {
+			return m.(string)
+		}
+		sched.Observef("%v", f["answers"])
+		return ""
+	}
+	return &mc.Scenario{Name: name, Body: body, Check: check, Model: sched.Deviation, NoCache: true}
+}
+
+type handlerFunc func(stream drpc.Stream, rpc string) error
+
+func (f handlerFunc) HandleRPC(stream drpc.Stream, rpc string) error { return f(stream, rpc) }
+
 func basePlans(tier string) []mc.Plan {
 	k := 1
 	if tier == "thorough" {
@@ -388,6 +464,11 @@ func basePlans(tier string) []mc.Plan {
 			for _, v := range []string{"A", "B"} {
 				ps = append(ps, mc.Plan{Scen: scenario(cfg, pr.c, pr.h, v), Bounds: []int{0, 1}})
 			}
+		}
+	}
+	for _, end := range []string{"half-close", "close"} {
+		for _, ctl := range []bool{false, true} {
+			ps = append(ps, mc.Plan{Scen: pipelinedScenario(end, ctl), Bounds: []int{0, 1, 2}, Split: true})
 		}
 	}
 	// two abandoned RPCs in a row before the probe
